@@ -9,6 +9,7 @@ import random
 from concurrent.futures import ThreadPoolExecutor
 
 import torch
+from linear_operator import to_linear_operator
 
 import gpytorch
 from gpytorch import settings as gs
@@ -37,11 +38,17 @@ KERNELS = ["rbf", "matern05", "matern15", "matern25", "rq", "scale_rbf", "rbf+li
            # (a ScaleKernel inherits the active_dims of its base kernel), "[ad]+[ad']" / "[ad]*[ad']" on the parts only
            "rbf[ad]", "scale_matern[ad]", "rbf[ad]+matern[ad']", "rq[ad]*linear[ad']"]
 ACTIVE_DIM_KERNELS = {k for k in KERNELS if "[ad" in k}
+# kernels that bring their OWN prediction strategy (family "structured"): random Fourier features (RFFPredictionStrategy),
+# KISS-GP on a fixed grid (InterpolatedPredictionStrategy), inducing points (SGPRPredictionStrategy).  The property's K is
+# "whatever the model's kernel evaluates to": for these the blocks of K are taken from the kernel's lazily evaluated joint
+# on [X; X*] in evaluation mode (struct_blocks), the closed form is the same Coq term
+STRUCT_KERNELS = ["rff", "scale_rff", "kiss", "scale_kiss", "sgpr", "scale_sgpr"]
+GRID_BOUNDS = (-4.0, 4.0)   # inputs are dyadic points of [-3, 3]: two cells of margin for the cubic interpolation
 MEANS = ["zero", "constant", "linear"]
 LIKS = ["gaussian", "fixed", "fixed+learned"]
 
 
-def make_kernel(name, d, rng):
+def make_kernel(name, d, rng, arch=None):
     k = gpytorch.kernels
     ls = lambda: rng.uniform(0.4, 2.0)  # noqa: E731
     if name == "rbf":
@@ -60,6 +67,21 @@ def make_kernel(name, d, rng):
         m = k.RBFKernel(ard_num_dims=d); m.lengthscale = torch.tensor([ls() for _ in range(d)])
     elif name == "poly":
         m = k.PolynomialKernel(power=2); m.offset = rng.uniform(0.2, 2)
+    elif name in STRUCT_KERNELS:
+        base = name.split("_")[-1]
+        if base == "rff":
+            # the random features are drawn at construction: seeded, so that every build of the case has the same ones
+            torch.manual_seed(rng.randint(0, 2 ** 31 - 1))
+            m = k.RFFKernel(num_samples=arch["D"], num_dims=d); m.lengthscale = ls()
+        elif base == "kiss":
+            inner = k.RBFKernel() if arch["inner"] == "rbf" else k.MaternKernel(nu=2.5)
+            inner.lengthscale = ls()
+            m = k.GridInterpolationKernel(inner, grid_size=list(arch["grid"]), grid_bounds=[GRID_BOUNDS] * d)
+        else:
+            m = k.RBFKernel(); m.lengthscale = ls()
+        if name.startswith("scale_"):
+            m = k.ScaleKernel(m); m.outputscale = rng.uniform(0.3, 3)
+        # (sgpr: build() wraps m into an InducingPointKernel, which needs the likelihood)
     elif name in ACTIVE_DIM_KERNELS:
         # a non-empty PROPER subset of the columns (d >= 2 is forced by gen_case), in random order of choice
         ad = sorted(rng.sample(range(d), rng.randint(1, d - 1)))
@@ -132,17 +154,21 @@ class _multi:
 BATCH_PATTERNS = ["params+data", "params-only", "data-only", "data-only,test-shared", "params(2,1)xdata(3)"]
 
 
-PRELUDES = ["targets", "inputs+targets", "inputs", "predict-other"]
+PRELUDES = ["targets", "inputs+targets", "inputs", "predict-other", "load"]
 
 
-def gen_case(rng, tier, family="single"):
+def gen_case(rng, tier, family="single", idx=0):
     nmax = 5 if tier == "quick" else 7
     n, t, d = rng.randint(1, nmax), rng.randint(1, 3), rng.randint(1, 3)
+    if family == "structured":
+        n, d = rng.randint(2, nmax), rng.randint(1, 2)
     if family == "multitask":
         n, t = rng.randint(1, 3), rng.randint(1, 2)
     if family == "batch":
         n = rng.randint(1, 4)
     kernel = rng.choice(KERNELS)
+    if family == "structured":
+        kernel = STRUCT_KERNELS[idx % len(STRUCT_KERNELS)]     # every structured kernel in every run
     if family == "multitask":
         kernel = rng.choice(["rbf", "matern25", "rq", "rbf[ad]"])
     if family == "batch":
@@ -166,8 +192,24 @@ def gen_case(rng, tier, family="single"):
         # (targets only / inputs only / both), or first predict at OTHER test inputs on the same model object,
         # before the compared prediction
         c["prelude"] = rng.choice([None, None] + PRELUDES)
+    elif family == "structured":
+        # the first round of the structured kernels has a prior mean that is NOT zero at the training inputs
+        if idx < len(STRUCT_KERNELS):
+            c["mean"] = rng.choice(["constant", "linear"])
+        c["prelude"] = rng.choice([None, None, "predict-other", "load", "targets", "inputs+targets"])
+        # what fixes the SHAPES of the state_dict entries (number of random features, grid sizes) belongs to the case
+        c["arch"] = dict(D=rng.randint(1, 4), inner=rng.choice(["rbf", "matern25"]),
+                         grid=[rng.randint(8, 11) if d == 1 else rng.randint(7, 8) for _ in range(d)])
+        if kernel.endswith("sgpr"):
+            m = rng.randint(2, 3)
+            for _ in range(2000):
+                Z = [[grid() for _ in range(d)] for _ in range(m)]
+                if all(sep(p, q) >= 0.5 for p, q in itertools.combinations(Z, 2)):
+                    break
+            c["Z"] = Z
+            c["lik"] = rng.choice(["gaussian", "fixed"])
     else:
-        c["prelude"] = rng.choice([None, None, "predict-other"])
+        c["prelude"] = rng.choice([None, None, "predict-other", "load"])
     if family == "multitask":
         c.update(tasks=2, rank=rng.choice([0, 1]), noise_rank=rng.choice([0, 1]),
                  y=[[rng.randint(-16, 16) / 8.0 for _ in range(2)] for _ in range(n)])
@@ -326,7 +368,10 @@ def build(case):
     rng = random.Random(case["hseed"])
     X = torch.tensor(case["X"]); y = torch.tensor(case["y"])
     lik = make_lik(case["lik"], case["n"], rng)
-    model = GP(X, y, lik, make_mean(case["mean"], case["d"], rng), make_kernel(case["kernel"], case["d"], rng))
+    mean, kern = make_mean(case["mean"], case["d"], rng), make_kernel(case["kernel"], case["d"], rng, case.get("arch"))
+    if case["kernel"].endswith("sgpr"):
+        kern = gpytorch.kernels.InducingPointKernel(kern, torch.tensor(case["Z"]), lik)
+    model = GP(X, y, lik, mean, kern)
     test_noise = [rng.uniform(0.05, 0.5) for _ in range(case["t"])]
     return model, lik, X, y, torch.tensor(case["Xs"]), torch.tensor(test_noise)
 
@@ -338,8 +383,33 @@ def _joint_inputs(model, X, Xs):
     return torch.cat([Xe, Xse], -2)
 
 
+def struct_blocks(case):
+    """kernels with their own prediction strategy: the blocks of K from the kernel's lazily evaluated joint on [X; X*]
+    in EVALUATION mode (what ExactGP.__call__ hands to the strategy).  SGPR (Titsias; documented): train/train =
+    Q_xx (+ the diagonal correction, a setting that is on by default), test/train = Q_*x, and the prior covariance of
+    the test points is the BASE kernel's K_** (SGPRPredictionStrategy.exact_prediction)."""
+    model, lik, X, y, Xs, _ = build(case)
+    model.eval(); lik.eval()
+    n = case["n"]
+    with torch.no_grad():
+        joint = model.covar_module(torch.cat([X, Xs], -2))     # LazyEvaluatedKernelTensor
+        Kxx = joint[..., :n, :n].to_dense()
+        Ksx = joint[..., n:, :n].to_dense()
+        if case["kernel"].endswith("sgpr"):
+            Kss = model.covar_module.base_kernel(Xs).to_dense()
+        else:
+            Kss = joint[..., n:, n:].to_dense()
+        KJ = torch.cat([torch.cat([Kxx, Ksx.transpose(-1, -2)], -1), torch.cat([Ksx, Kss], -1)], -2)
+        mu = model.mean_module(torch.cat([X, Xs], -2))
+        A = lik(gpytorch.distributions.MultivariateNormal(mu[:n], to_linear_operator(Kxx)), X).covariance_matrix
+    S = [[C.frac(A[i, j].item()) - C.frac(Kxx[i, j].item()) for j in range(n)] for i in range(n)]
+    return [(KJ.tolist(), mu.tolist(), S, y.tolist())]
+
+
 def impl_inputs(case):
     """the model's own prior pieces as exact rationals, one entry per element of the broadcast batch"""
+    if case.get("family") == "structured":
+        return struct_blocks(case)
     model, lik, X, y, Xs, _ = build(case)
     model.train(); lik.train()
     with torch.no_grad(), gs.debug(False):
@@ -362,15 +432,36 @@ def impl_inputs(case):
     return res
 
 
+def other_state(case):
+    """state_dict of the same architecture at OTHER hyperparameter values: every entry of the state_dict (kernel, mean
+    and likelihood parameters, RFF feature weights, inducing points) of a model built from another hyperparameter seed,
+    except what belongs to the architecture (active_dims, entries whose shape differs)"""
+    o = dict(case, hseed=case["hseed"] + 1)
+    if "Z" in case:
+        o["Z"] = [[v + 0.1875 for v in z] for z in case["Z"]]
+    mine = build(case)[0].state_dict()
+    theirs = build(o)[0].state_dict()
+    return {k: (theirs[k] if k in theirs and theirs[k].shape == v.shape and not k.endswith("active_dims") else v).detach().clone()
+            for k, v in mine.items()}
+
+
 def impl_outputs(case, flags):
     model, lik, X, y, Xs, tn = build(case)
+    if case.get("prelude") == "load":
+        # the model object starts at other hyperparameter values (loaded before anything was computed), predicts in
+        # eval mode, and receives the case's hyperparameters by load_state_dict while staying in eval mode
+        mine = {k: v.detach().clone() for k, v in model.state_dict().items()}
+        model.load_state_dict(other_state(case))
     model.eval(); lik.eval()
     cms = [FLAGS[f]() for f in flags]
     fam = case.get("family", "single")
     torch.manual_seed(case["hseed"] % (2 ** 31))   # Lanczos probe vectors: the same on replay
     with torch.no_grad(), _multi(*cms):
         pre = case.get("prelude")
-        if pre == "predict-other":
+        if pre == "load":
+            p0 = model(Xs); p0.loc; p0.covariance_matrix
+            model.load_state_dict(mine)
+        elif pre == "predict-other":
             # an earlier prediction of the SAME model object at other test inputs (one point more, all moved)
             Xo = torch.cat([Xs + 0.3125, Xs[..., :1, :] - 0.4375], -2)
             p0 = model(Xo); p0.loc; p0.covariance_matrix
@@ -395,14 +486,14 @@ def impl_outputs(case, flags):
         mm = m.expand(*bshape, N).reshape(-1, N); cc = cov.expand(*bshape, N, N).reshape(-1, N, N)
         vv = var.expand(*bshape, N).reshape(-1, N)
         roots = None
-        if lanczos_root_path(flags) and fam != "multitask":
+        if lanczos_root_path(flags) and fam not in ("multitask", "structured"):   # (their covar_cache is another object)
             # the (already memoised) root the strategy holds: only used to DIAGNOSE a covariance disagreement
             R = model.prediction_strategy.covar_cache.detach()
             roots = R.expand(*bshape, *R.shape[-2:]).reshape(-1, *R.shape[-2:])
         for b in range(mm.shape[0]):
             res.append(dict(mean=mm[b].tolist(), cov=cc[b].tolist(), var=vv[b].tolist(), added=None, noise=None,
                             root=None if roots is None else roots[b].tolist()))
-        if fam == "single":
+        if fam in ("single", "structured"):
             if case["lik"] == "gaussian":
                 marg = lik(post).covariance_matrix
                 noise = [lik.noise.item()] * case["t"]
@@ -431,6 +522,16 @@ def tol(flags):
     if ITERATIVE & set(flags):
         return 1e-5
     return 1e-8
+
+
+# SGPR is a documented approximation whose prior covariance of the test points is the base kernel's only while the joint is
+# a lazily evaluated kernel (SGPRPredictionStrategy.exact_prediction); with eager kernel evaluation the strategy is not
+# selected at all.  Its closed form is compared on the lazy paths.
+STRUCT_EXCLUDED = {"sgpr": ("eager_kernels",)}
+# settings.skip_posterior_variances is documented to give a ZeroLinearOperator covariance; SGPRPredictionStrategy and the
+# fast_pred_var branch of InterpolatedPredictionStrategy return the full covariance instead (recorded finding
+# C01-skip-variances-structured, fixes_proposed/C01_skip_variances_structured.diff).  The covariance they return is still
+# compared with the closed form, so that the finding does not hide anything else on those paths.
 
 
 def lanczos_root_path(flags):
@@ -475,10 +576,11 @@ def compare(out, case, flags, res, mm, mc, b=0, pr=None):
     path = "+".join(sorted(flags)) or "default"
     if case.get("prelude"):
         path = ("after-prediction-at-other-test-inputs:%s" % path if case["prelude"] == "predict-other" else
+                "after-predict+load_state_dict:%s" % path if case["prelude"] == "load" else
                 "after-set_train_data(%s):%s" % (case["prelude"], path))
     fam = case.get("family", "single")
     if fam != "single":
-        path = fam + (":" + case["pattern"] if fam == "batch" else "") + ":" + path
+        path = fam + (":" + case["pattern"] if fam == "batch" else "") + (":" + case["kernel"] if fam == "structured" else "") + ":" + path
     for i in range(t):
         if not C.close(res["mean"][i], mm[i], a, a):
             out.fail("posterior-mean:%s" % path, "posterior mean differs from the closed-form conditional",
@@ -488,6 +590,9 @@ def compare(out, case, flags, res, mm, mc, b=0, pr=None):
         if any(abs(v) > 0 for r in res["cov"] for v in r):
             out.fail("skip-variances:%s" % path, "skip_posterior_variances did not return a zero covariance", desc,
                      impl=res["cov"])
+            if fam == "structured" and any(not C.close(res["cov"][i][j], mc[i][j], ac, ac) for i in range(t) for j in range(t)):
+                out.fail("posterior-cov:%s" % path, "posterior covariance (returned although skip_posterior_variances is on) "
+                         "differs from K** - K*x (Kxx+S)^-1 Kx*", desc, impl=res["cov"], model=[[float(v) for v in r] for r in mc])
         return
     bad = False
     for i in range(t):
@@ -533,9 +638,10 @@ def compare(out, case, flags, res, mm, mc, b=0, pr=None):
 def run(out, ctx):
     tier, seed = ctx["tier"], ctx["seed"]
     rng = random.Random(seed * 7919 + 1)
-    nc = dict(single=44, batch=10, multitask=10, large=5) if tier == "quick" else dict(single=400, batch=120, multitask=100, large=14)
+    nc = dict(single=40, batch=10, multitask=10, structured=12, large=5) if tier == "quick" else \
+        dict(single=400, batch=120, multitask=100, structured=120, large=14)
     flagnames = sorted(FLAGS)
-    cases = [gen_case(rng, tier, fam) for fam in ("single", "batch", "multitask") for _ in range(nc[fam])]
+    cases = [gen_case(rng, tier, fam, i) for fam in ("single", "batch", "multitask", "structured") for i in range(nc[fam])]
     cases += [gen_large(rng, tier) for _ in range(nc["large"])]
     prior = [impl_inputs(c) for c in cases]
     coq_cases, owner = [], []
@@ -556,10 +662,16 @@ def run(out, ctx):
     out.rule = ("random exact-GP problems: single-output (n<=%d, t<=3, d<=3, %d kernels - %d of them restricted to a proper subset "
                 "of the input columns by active_dims, on the top-level kernel or on the parts of a sum/product - x 3 means x 3 "
                 "likelihoods), batched (5 parameter/data broadcast patterns, every batch element compared with its own closed "
-                "form) and Kronecker multitask (2 tasks, task-kernel rank 0/1, task-noise rank 0/1); two thirds of the "
+                "form), Kronecker multitask (2 tasks, task-kernel rank 0/1, task-noise rank 0/1) and STRUCTURED kernels with a "
+                "prediction strategy of their own (RFFKernel, GridInterpolationKernel on a fixed grid in 1-d/2-d, "
+                "InducingPointKernel, each bare and inside ScaleKernel, every one in every run, x 3 means - the first round "
+                "with a prior mean that is not zero - x 3 likelihoods; K = the blocks of the kernel's own lazily evaluated "
+                "joint in eval mode, for SGPR with the base kernel's K** as documented); two thirds of the "
                 "single-output cases first predict on other data and then install the case's data with set_train_data "
                 "(targets only / inputs only / inputs and targets) or first predict at other test inputs on the same model "
-                "object (a third of the batched / multitask cases do the latter); each under the default settings, every "
+                "object, or first predict at OTHER hyperparameter values and then receive the case's by load_state_dict "
+                "while staying in eval mode (half of the batched / multitask cases do one of the last two, the structured "
+                "cases any but inputs-only); each under the default settings, every "
                 "single non-default flag (incl. CG with only eval_cg_tolerance tight and cg_tolerance at its default, and "
                 "settings.debug(False)) and random flag subsets; non-trivial = n_train>=2 and posterior variance differs "
                 "from the prior by >1e-6; plus %d LARGE problems (n_train 13..%d, above the 10 iterations linear_cg runs before "
@@ -602,9 +714,10 @@ def run(out, ctx):
             for _ in range(2 if tier == "quick" else 4):
                 combos.append(tuple(sorted(["cg_eval_tol_only"] + [f for f in rest if rng.random() < 0.4])))
         else:
-            combos = [()] + [(f,) for f in flagnames]
+            names = [f for f in flagnames if f not in STRUCT_EXCLUDED.get(case["kernel"].split("_")[-1], ())]
+            combos = [()] + [(f,) for f in names]
             for _ in range(2 if tier == "quick" else 6):
-                combos.append(tuple(f for f in flagnames if rng.random() < 0.4))
+                combos.append(tuple(f for f in names if rng.random() < 0.4))
         for flags in combos:
             if cond > COND_MAX and ITERATIVE & set(flags):
                 out.count("rejected: cond(Kxx+S)>%g or relative eigenvalue gap<%g on an iterative path" % (COND_MAX, MIN_EIG_GAP))
